@@ -6,9 +6,10 @@
    (drawn from the free list / exhaustion with an empty free list).  Theorems quantify over every
    accepted history, i.e. over every allocation policy, including the code's own (C01_lifo_is_accepted).
    [ledger evs] is the ownership map recomputed from the observable events only.
-   Variants: [Repaired] = every recorded defect repaired (all fixes/C01_*.patch applied) - the theorems;
-   [Unguarded] = /repo HEAD 85029df (range loops unguarded, PD prefix length unvalidated);
-   [SharedVrf], [Defective] = earlier states of the code (see Model.v). *)
+   Variants: [Repaired] = what /repo does now (every fixes/C01_*.patch is committed there) - the theorems;
+   [Unguarded] = before a1ebdc8 / 1de6b72 (range loops unguarded, PD prefix length unvalidated);
+   [SharedVrf], [Defective] = still earlier states of the code (see Model.v).  The `_refuted` statements are
+   historical witnesses of defects that are fixed; the correspondence check compares with [Repaired] only. *)
 From OV Require Import Common.Base C01.Model C01.Proofs C01.ProofsPD C01.ProofsReg.
 Local Open Scope N_scope.
 
@@ -84,7 +85,7 @@ Theorem C01_lifo_is_accepted :
 Proof. exact lifo_progress. Qed.
 Print Assumptions C01_lifo_is_accepted.
 
-(* the code as found violates confinement: Reserve(excluded) / Release / Allocate *)
+(* historical (fixed in d00d766): the earlier code violated confinement: Reserve(excluded) / Release / Allocate *)
 Definition ex_pool : pcfg := {| p_fam := V4; p_lo := 167772410; p_hi := 167772421; p_excl := [(V4, 167772415)] |}.
 Theorem C01_confined_refuted :
   exists c ks st evs s obs a,
@@ -121,7 +122,7 @@ Print Assumptions C01_pool_nonvacuous.
 (* ---------------------------------------------------------------- the range loop of buildFreeList / parseExcludeRange *)
 (* [range_loop] is `for addr := lo; addr.Compare(hi) <= 0; addr = addr.Next()` with netip's Next()
    (zero Addr after the last address of a family) and Compare (zero Addr below every address).
-   /repo HEAD: when the range end is the last address of its family (255.255.255.255, ffff:..:ffff)
+   Historical (fixed in a1ebdc8): with the unguarded condition, when the range end is the last address of its family (255.255.255.255, ffff:..:ffff)
    or the range runs from an IPv4 to an IPv6 address, the loop runs out of ANY amount of fuel:
    NewPoolAllocator / newRegistry never return (and allocate without bound). *)
 Theorem C01_range_loop_diverges :
@@ -180,7 +181,7 @@ Theorem C01_pd_same_index_same_prefix :
 Proof. exact pd_same_index_same_prefix. Qed.
 Print Assumptions C01_pd_same_index_same_prefix.
 
-(* the code as found accepts 2101:db8::/72 for the pool 2001:db8::/64 -> /72 (index 0), and
+(* historical (fixed in c2652db): the earlier code accepted 2101:db8::/72 for the pool 2001:db8::/64 -> /72 (index 0), and
    2001:db8:0:0:1::5/128 for 2001:db8::/120 -> /128 *)
 Definition ex_pd : pdcfg := {| pd_net := 42540766411282592856903984951653826560; pd_nbits := 64; pd_plen := 72 |}.
 Definition ex_foreign : N := 43869994407067508729807792011934171136.
@@ -271,8 +272,8 @@ Theorem C01_pd_release_then_allocatable :
 Proof. exact pd_release_then_allocatable. Qed.
 Print Assumptions C01_pd_release_then_allocatable.
 
-(* NewPrefixAllocator on /repo HEAD accepts prefix lengths above 128 (PDPool.PrefixLength is a uint8 that
-   nothing validates): every index then yields the base address with a nil mask, so one address is
+(* historical (fixed in 1de6b72): NewPrefixAllocator accepted prefix lengths above 128 (PDPool.PrefixLength is a
+   uint8 that nothing else validates): every index then yielded the base address with a nil mask, so one address is
    delegated to as many sessions as the pool has indices.  Repaired: such a pool is refused. *)
 Definition ex_pd_big : pdcfg := {| pd_net := 42540766411282592856903984951653826560; pd_nbits := 120; pd_plen := 130 |}.
 Theorem C01_pd_plen_unvalidated_refuted :
@@ -459,7 +460,7 @@ Theorem C01_vrf_is_configured :
 Proof. exact reachable_vrf. Qed.
 Print Assumptions C01_vrf_is_configured.
 
-(* the code as found keeps ONE pool->VRF map keyed "profile/pool": an IA_NA pool in VRF 7 makes the
+(* historical (fixed in 85029df): the earlier code kept ONE pool->VRF map keyed "profile/pool": an IA_NA pool in VRF 7 made the
    equally named PD pool (configured without VRF) serve VRF-7 subscribers and refuse default-VRF ones *)
 Theorem C01_vrf_per_family_refuted :
   exists pfs f k vrf s o st' r,
@@ -549,3 +550,38 @@ Proof.
   - eexists. eexists. split; vm_compute; reflexivity.
 Qed.
 Print Assumptions C01_registry_nonvacuous.
+
+(* ---- re-entry.  A session calls ResolveV4 again with the context of its earlier call (REQUEST after DISCOVER,
+   renew, retry); releases through the registry leave the context alone.  Contract: whatever ResolveV4 returns
+   is, after the call, leased to the calling session in an IPv4 allocator - through the allocation or the
+   reservation the call just made - unless no IPv4 allocator contains it.  Nothing the context remembers
+   (AllocatedPool) can stand in for that reservation. *)
+Theorem C01_resolve4_stakes_its_answer :
+  forall v st s cx obs wobs st' cx' a pool,
+    resolve4_ctx v st s cx obs wobs = Some (st', cx', R4 a pool) ->
+    (exists k ac ps' a', (a' = a \/ a' = unmap a) /\
+        assoc_find key_eqb k (r_allocs st' F4) = Some (ac, ps') /\ lm_lookup a' (leases ps') = Some s) \/
+    (c4_addr cx = Some a /\ st' = st /\
+     forall e, In e (r_allocs st F4) -> acontains v (fst (snd e)) (RA (Some a)) = false).
+Proof. exact resolve4_ctx_staked. Qed.
+Print Assumptions C01_resolve4_stakes_its_answer.
+
+(* the interleaving: session 1 is given 30, 30 is released behind its back, session 2 is given 30,
+   session 1 re-enters with its kept context (address 30, AllocatedPool 1/3): refused *)
+Definition ex_reentry : option res4 :=
+  let cx := {| c4_pf := 1; c4_ov := 0; c4_vrf := 0; c4_addr := None; c4_pool := None |} in
+  match resolve4_ctx Repaired (reg_init Repaired ex_reg) 1 cx (Some ((1, 3), OA (V4, 30))) None with
+  | Some (st1, cx1, R4 _ _) =>
+      match reg_step Repaired st1 (RReleaseByValue F4 (RA (Some (V4, 30))) None) with
+      | Some (st2, _) =>
+          match resolve4_ctx Repaired st2 2 cx (Some ((1, 3), OA (V4, 30))) None with
+          | Some (st3, _, R4 _ _) =>
+              match resolve4_ctx Repaired st3 1 cx1 None (Some (1, 3)) with
+              | Some (_, _, r) => Some r | None => None end
+          | _ => None end
+      | None => None end
+  | _ => None end.
+Example C01_reentry_conflict_detected : ex_reentry = Some R4Nil.
+Proof. vm_compute. reflexivity. Qed.
+Print Assumptions C01_reentry_conflict_detected.
+
